@@ -160,7 +160,7 @@ def discharge(ob, ctx, budget_s=20.0):
     backend = ""
     for g in goals:
         if ob.meta and ob.meta.get("tactic") == "ring":
-            okr, dtr = ring_prove(list(ob.hyps), g)
+            okr, dtr = ring_prove(list(ob.hyps) + relevant_axioms(ctx.axioms, list(ob.hyps) + [g]), g)
             total += dtr
             if okr:
                 backend = "sympy-ring+z3"
@@ -243,7 +243,30 @@ def _to_sympy(t, syms, dens, budget):
     return syms[key][0]
 
 
-def ring_prove(hyps, goal, max_nodes=4000):
+class _RingTimeout(BaseException):
+    pass
+
+
+def ring_prove(hyps, goal, max_nodes=4000, limit_s=20.0):
+    """time-limited wrapper (sympy has no budget of its own): SIGALRM where available (worker processes run harnesses in their main thread)"""
+    import signal, threading
+    if threading.current_thread() is not threading.main_thread() or not hasattr(signal, "setitimer"):
+        return _ring_prove(hyps, goal, max_nodes)
+    def onalarm(signum, frame):
+        raise _RingTimeout()
+    old = signal.signal(signal.SIGALRM, onalarm)
+    t0 = time.time()
+    signal.setitimer(signal.ITIMER_REAL, limit_s)
+    try:
+        return _ring_prove(hyps, goal, max_nodes)
+    except _RingTimeout:
+        return False, time.time() - t0
+    finally:
+        signal.setitimer(signal.ITIMER_REAL, 0)
+        signal.signal(signal.SIGALRM, old)
+
+
+def _ring_prove(hyps, goal, max_nodes=4000):
     """goal  l == r  over the reals.  Hypotheses of the form  c == e  (c an uninterpreted constant not in e) and equalities linear in some constant
     are used as substitutions; the goal holds if  l - r  normalises to a fraction with numerator 0 and every denominator met on the way is
     non-zero under the hypotheses (checked by z3).  -> (proved, seconds)"""
@@ -281,7 +304,25 @@ def ring_prove(hyps, goal, max_nodes=4000):
                 if progressed:
                     break
             if not progressed:
-                return False, time.time() - t0
+                # ideal membership: the numerator reduces to zero modulo a Groebner basis of the remaining polynomial hypotheses over its symbols
+                polys = []
+                for i, q in enumerate(eqs):
+                    if i in used:
+                        continue
+                    qn = sympy.expand(sympy.fraction(sympy.together(q))[0])
+                    if qn != 0 and qn.free_symbols and (qn.free_symbols & free) and qn.is_polynomial(*qn.free_symbols):
+                        polys.append(qn)
+                allsyms = set(free)
+                for q_ in polys:
+                    allsyms |= q_.free_symbols
+                if not polys or len(allsyms) > 30:
+                    return False, time.time() - t0
+                gens = sorted(allsyms, key=str)
+                G = sympy.groebner(polys, *gens, order="grevlex")
+                _, rem = G.reduce(num)
+                if sympy.expand(rem) != 0:
+                    return False, time.time() - t0
+                break
         else:
             return False, time.time() - t0
         # every symbolic denominator must be non-zero under the hypotheses
